@@ -125,58 +125,125 @@ def strict_mode_reads_frame(tier):
 from odxtools.decodestate import DecodeState  # noqa: E402
 from odxtools.encodestate import EncodeState  # noqa: E402
 from odxtools.encoding import Encoding, get_string_encoding  # noqa: E402
-from odxtools.odxlink import DocType, OdxDocFragment, OdxLinkDatabase, OdxLinkRef  # noqa: E402
+from contracts import build as B  # noqa: E402
+from odxtools.compumethods.compuconst import CompuConst  # noqa: E402
+from odxtools.compumethods.compuinternaltophys import CompuInternalToPhys  # noqa: E402
+from odxtools.compumethods.compumethod import CompuCategory  # noqa: E402
+from odxtools.compumethods.compuscale import CompuScale  # noqa: E402
+from odxtools.compumethods.limit import IntervalType, Limit  # noqa: E402
+from odxtools.compumethods.texttablecompumethod import TexttableCompuMethod  # noqa: E402
+from odxtools.odxlink import DocType, OdxDocFragment, OdxLinkDatabase, OdxLinkRef, resolve_snref  # noqa: E402
 from odxtools.odxtypes import DataType  # noqa: E402
 
 _FR = [OdxDocFragment("doc", DocType.CONTAINER)]
 
 
-def _op_illegal_string_encoding():
-    return get_string_encoding(DataType.A_UTF8STRING, Encoding.BCD_P, True)
+# (problems = conditions the library reports through odxraise/odxassert/odxrequire; unconditional raise statements such
+# as 'Expected a longer message' or an invalid physical value are errors in both modes and are not listed)
+# every problem is a factory: the objects it works on are created once and shared by all calls of the returned
+# operation, so a part of the library that remembers the outcome of an earlier call (a cache) is noticed
+def _p_illegal_string_encoding():
+    return lambda: get_string_encoding(DataType.A_UTF8STRING, Encoding.BCD_P, True)
 
 
-def _op_illegal_int_encoding_encode():
-    es = EncodeState()
-    es.emplace_atomic_value(internal_value=1, bit_length=8, base_data_type=DataType.A_UINT32,
-                            base_type_encoding=Encoding.ONEC, is_highlow_byte_order=True, used_mask=None)
-    return bytes(es.coded_message)
+def _p_illegal_int_encoding_encode():
+    def op():
+        es = EncodeState()
+        es.emplace_atomic_value(internal_value=1, bit_length=8, base_data_type=DataType.A_UINT32,
+                                base_type_encoding=Encoding.ONEC, is_highlow_byte_order=True, used_mask=None)
+        return bytes(es.coded_message)
+    return op
 
 
-def _op_illegal_int_encoding_decode():
-    ds = DecodeState(coded_message=b"\x01")
-    return ds.extract_atomic_value(bit_length=8, base_data_type=DataType.A_UINT32, base_type_encoding=Encoding.SM,
-                                   is_highlow_byte_order=True)
+def _p_illegal_int_encoding_decode():
+    def op():
+        ds = DecodeState(coded_message=b"\x01")
+        return ds.extract_atomic_value(bit_length=8, base_data_type=DataType.A_UINT32,
+                                       base_type_encoding=Encoding.SM, is_highlow_byte_order=True)
+    return op
 
 
-def _op_illegal_string_decode():
-    ds = DecodeState(coded_message=b"ab")
-    return ds.extract_atomic_value(bit_length=16, base_data_type=DataType.A_ASCIISTRING,
-                                   base_type_encoding=Encoding.BCD_UP, is_highlow_byte_order=True)
+def _p_illegal_string_decode():
+    def op():
+        ds = DecodeState(coded_message=b"ab")
+        return ds.extract_atomic_value(bit_length=16, base_data_type=DataType.A_ASCIISTRING,
+                                       base_type_encoding=Encoding.BCD_UP, is_highlow_byte_order=True)
+    return op
 
 
-def _op_dangling_reference():
-    return OdxLinkDatabase().resolve(OdxLinkRef("nope", _FR))
+def _p_dangling_reference():
+    db = OdxLinkDatabase()
+    return lambda: db.resolve(OdxLinkRef("nope", _FR))
 
 
-def _op_require_none():
-    return odxrequire(None)
+def _p_require_none():
+    return lambda: odxrequire(None)
 
 
-def _op_value_out_of_range():
-    es = EncodeState()
-    es.emplace_atomic_value(internal_value=300, bit_length=8, base_data_type=DataType.A_UINT32,
-                            base_type_encoding=None, is_highlow_byte_order=True, used_mask=None)
-    return bytes(es.coded_message)
+def _p_value_out_of_range():
+    def op():
+        es = EncodeState()
+        es.emplace_atomic_value(internal_value=300, bit_length=8, base_data_type=DataType.A_UINT32,
+                                base_type_encoding=None, is_highlow_byte_order=True, used_mask=None)
+        return bytes(es.coded_message)
+    return op
+
+
+def _texttable(texts):
+    scales = [CompuScale(short_label=None, description=None,
+                         lower_limit=Limit(value_raw=str(i), value_type=DataType.A_UINT32,
+                                           interval_type=IntervalType.CLOSED),
+                         upper_limit=Limit(value_raw=str(i), value_type=DataType.A_UINT32,
+                                           interval_type=IntervalType.CLOSED),
+                         compu_inverse_value=None,
+                         compu_const=CompuConst(v=None, vt=t, data_type=DataType.A_UNICODE2STRING),
+                         compu_rational_coeffs=None, domain_type=DataType.A_UINT32,
+                         range_type=DataType.A_UNICODE2STRING) for i, t in enumerate(texts)]
+    return TexttableCompuMethod(category=CompuCategory.TEXTTABLE,
+                                compu_internal_to_phys=CompuInternalToPhys(compu_scales=scales, prog_code=None,
+                                                                           compu_default_value=None),
+                                compu_phys_to_internal=None, physical_type=DataType.A_UNICODE2STRING,
+                                internal_type=DataType.A_UINT32)
+
+
+def _p_texttable_ambiguous_text():
+    cm = _texttable(["on", "reserved", "reserved"])
+    return lambda: cm.convert_physical_to_internal("reserved")
+
+
+def _p_texttable_unknown_text():
+    cm = _texttable(["on", "off"])
+    return lambda: cm.convert_physical_to_internal("standby")
+
+
+def _p_request_value_out_of_range():
+    rq = B.request([B.coded_const("sid", 0x22, 0), B.value_param("v", B.dop("u8", 8), 1)])
+    return lambda: bytes(rq.encode(v=300))
+
+
+def _p_ambiguous_snref():
+    items = [Named("t"), Named("t")]
+    return lambda: resolve_snref("t", items)
+
+
+class Named:
+
+    def __init__(self, short_name):
+        self.short_name = short_name
 
 
 PROBLEMS = {
-    "illegal-string-encoding": _op_illegal_string_encoding,
-    "illegal-int-encoding-encode": _op_illegal_int_encoding_encode,
-    "illegal-int-encoding-decode": _op_illegal_int_encoding_decode,
-    "illegal-string-encoding-decode": _op_illegal_string_decode,
-    "dangling-reference": _op_dangling_reference,
-    "required-object-missing": _op_require_none,
-    "value-out-of-range": _op_value_out_of_range,
+    "illegal-string-encoding": _p_illegal_string_encoding,
+    "illegal-int-encoding-encode": _p_illegal_int_encoding_encode,
+    "illegal-int-encoding-decode": _p_illegal_int_encoding_decode,
+    "illegal-string-encoding-decode": _p_illegal_string_decode,
+    "dangling-reference": _p_dangling_reference,
+    "required-object-missing": _p_require_none,
+    "value-out-of-range": _p_value_out_of_range,
+    "texttable-ambiguous-text": _p_texttable_ambiguous_text,
+    "texttable-unknown-text": _p_texttable_unknown_text,
+    "request-value-out-of-range": _p_request_value_out_of_range,
+    "ambiguous-snref": _p_ambiguous_snref,
 }
 
 
@@ -187,7 +254,7 @@ PROBLEMS = {
 def restoring_strict_mode_restores_the_error(problem, order):
     """for a problematic operation: error in strict mode, no error in lenient mode, whatever mode was active before -
     the outcome of a call depends only on the flag at the time of that call"""
-    op = PROBLEMS[problem]
+    op = PROBLEMS[problem]()
     outcomes = []
     for mode in order.split("-"):
         H.set_global(X, "strict_mode", mode == "strict")
